@@ -41,9 +41,14 @@ def _hist_configs(rng, k):
     # a memo on the scatterer/theory or stale Fortran state would confuse with the earlier call)
     import copy
     changes = ["medium_index", "illum_wavelen", "illum_polarization", "center", "index", "size", "spacing", "scaling"]
+    todo = []
     for j in range(k):
+        todo.append((j, changes[j % len(changes)]))
+        # the theories that keep state in compiled code between calls get the optics changes as well, whatever their place in the list
+        if out[j]["theory"]["t"] in ("Tmatrix", "Multisphere") or out[j]["theory"].get("inner", {}).get("t") in ("Tmatrix", "Multisphere"):
+            todo += [(j, ch_) for ch_ in ("illum_wavelen", "medium_index", "size") if ch_ != changes[j % len(changes)]]
+    for j, ch in todo:
         cfg = copy.deepcopy(out[j])
-        ch = changes[j % len(changes)]
         o = cfg["optics"]
         if ch == "medium_index":
             o["medium_index"] = o["medium_index"] * 1.01
